@@ -313,6 +313,34 @@ theorem C06_ngram_clean_partial (n : Int) (d : Q → UNT U) (A : DFTA Sym Q) (hd
   intro hK fuel Gc hc t
   rw [C06_clean_lang G hK fuel Gc hc t, C06_ngram_lang_partial n d A hd hinj bfuel G h t]
 
+/-- the non-terminals of the grammar carry the types of the flattened states: none is the
+    end-of-derivation marker's `UnknownType` as soon as no state has that type (the side
+    condition of the `clean()` theorems) -/
+theorem C06_keys_typed (d : Q → UNT U) (A : DFTA Sym Q) (htyped : ∀ q ∈ A.allStates, (d q).1 ≠ Ty.unknown)
+    (G : UCFG U) (h : fromDFTA d A = some G) : ∀ k ∈ AList.keys G.rules, k.1 ≠ Ty.unknown := by
+  intro k hk
+  obtain ⟨q, hq, e⟩ := build_keys_image (plainFlat d) A (fun _ _ _ _ => rfl) (fun _ => rfl) _ G h k hk
+  have : k = d q := e
+  rw [this]
+  exact htyped q hq
+
+/-- **`UCFG.from_DFTA(dfta)` as the library calls it (clean=True), total correctness**: for a
+    duplicate-free acyclic table with a final state whose states are typed and not merged by the
+    flattening, the construction returns, `clean()` returns, and the cleaned grammar contains
+    exactly the accepted programs, each with exactly one derivation. -/
+theorem C06_fromDFTA_clean_total_partial (d : Q → UNT U) (A : DFTA Sym Q) (hd : A.Det)
+    (hinj : InjOn d A) (hac : Acyclic A) (hf : A.finals ≠ [])
+    (htyped : ∀ q ∈ A.allStates, (d q).1 ≠ Ty.unknown) :
+    ∃ G, fromDFTA d A = some G ∧ ∃ fuel0, ∀ fuel, fuel0 ≤ fuel → ∃ Gc, clean G fuel = some Gc ∧
+      ∀ t, contains Gc t = A.accepts t ∧
+        (reduceAll Gc t).length = (if A.accepts t = true then 1 else 0) := by
+  obtain ⟨G, hG⟩ := C06_fromDFTA_terminates d A hf
+  obtain ⟨fuel0, h0⟩ := C06_clean_terminates_partial d A hinj hac G hG
+  refine ⟨G, hG, fuel0, fun fuel hfuel => ?_⟩
+  obtain ⟨Gc, hGc⟩ := h0 fuel hfuel
+  exact ⟨Gc, hGc, fun t => C06_clean_fromDFTA_partial d A hd hinj G hG
+    (C06_keys_typed d A htyped G hG) fuel Gc hGc t⟩
+
 /-! ## with the Python state values and `__d2state__` -/
 
 theorem injOn_of_d2Injective (fixed : Bool) (A : DFTA Sym PyVal) (h : d2Injective fixed A = true) :
